@@ -113,7 +113,11 @@ func modInverseRule(P *Program, R *Report) {
 			}
 			q := &MustPass{P: P, Match: func(a Atom) bool {
 					g, ok := parseGuard(a, be)
-					return ok && g.Kind == "big" && g.SubjV != nil && siteOf(g.SubjV) == xSite && ((g.Rel == ">=" && g.Bound.equal(tconst(1))) || (g.Rel == ">" && g.Bound.equal(tconst(0))))
+					if !ok {
+						return false
+					}
+					rel, bound, ok := g.relFor(gcd.Call.Args[1], be)
+					return ok && ((rel == ">=" && bound.equal(tconst(1))) || (rel == ">" && bound.equal(tconst(0))))
 				},
 				Instr: func(_ *ssa.Function, i ssa.Instruction) bool {
 					c, ok := i.(*ssa.Call)
